@@ -173,7 +173,8 @@ def main(chk):
     chk.cov["rule"] = ("exhaustive [-9,9]^2 per operator; boundary set (0,+-1..3, 2^k+-1 for k in 31,32,52,53,54,62, "
                        "int64 extremes, +-3037000499/500) squared per operator; a**b for a in [-11,11]+{+-2^31,+-3037000499}, b in [0,70]; "
                        "seeded random 64-bit / random-magnitude pairs. Each case is run through the built-in called directly and "
-                       "through parsed source `(a) op (b)`. non-trivial: |a|>1 and |b|>1 (|a|>1 for unary minus); distinct by (op,a,b).")
+                       "through parsed source `(a) op (b)`; 8 operators x 8x8 boundary operands also as Int descendants (`Int.bear({}).new`) on both sides "
+                       "and on the right only: same value / same error as the plain integers. non-trivial: |a|>1 and |b|>1 (|a|>1 for unary minus); distinct by (op,a,b).")
     for i in (0, len(cases) // 3, len(cases) // 2, len(cases) - 1):
         (op, a, b), o = cases[i], outs[i]
         chk.sample({"op": op, "a": str(a), "b": str(b), "impl_direct": o["r"], "impl_source": o.get("s")})
@@ -182,8 +183,33 @@ def main(chk):
         "harness sub-command intop (Go), Python exact-integer oracle used only to search for failing inputs",
         "Flocq 4 binary64 (Bdiv, binary_normalize) for `/`; Go's float64 conversion and division are compared bit for bit",
         "math.Pow float path of `**` (negative exponent, result beyond int64) is outside the model and the property"]
-    chk.assumptions += ["operands are int64 values (PanInt); nil/float operands and Int descendants are outside C10",
+    chk.assumptions += ["operands are int64 values (PanInt and Int descendants); nil/float operands are outside C10",
                         "literals are spelled in range so that literal parsing (C17) does not interfere"]
+    # 3. operands that are Int DESCENDANTS (typed integers made with bear/new) and booleans behave as the plain integers do
+    tvals = [0, 1, -1, 2, -7, 2 ** 62, -(2 ** 63) + 1, 2 ** 63 - 1]
+    tops = ["+", "-", "*", "//", "%", "/", "**", "<=>"]
+    tprogs, tmeta = [], []
+    lit = lambda v: "(%d)" % v
+    for op in tops:
+        for a in tvals:
+            for b in tvals:
+                if op == "**" and (b < 0 or b > 70):
+                    continue
+                tmeta.append((op, a, b))
+                tprogs.append("%s %s %s" % (lit(a), op, lit(b)))
+                tprogs.append("M := Int.bear({})\n(M.new(%s) - M.new(0)) %s (M.new(%s) - M.new(0))" % (lit(a), op, lit(b)))
+                tprogs.append("M := Int.bear({})\n%s %s (M.new(%s) - M.new(0))" % (lit(a), op, lit(b)))
+    touts = harness("eval", [{"src": p_} for p_ in tprogs], shards=NCPU)
+    for i, (op, a, b) in enumerate(tmeta):
+        plain, typed, mixed = touts[3 * i], touts[3 * i + 1], touts[3 * i + 2]
+        chk.count(("typed", op, a, b), True)
+        key = lambda r: (r["kind"], r.get("errk"), r.get("repr") if r["kind"] == "value" else None)
+        for what, r in (("both operands typed", typed), ("right operand typed", mixed)):
+            if key(r) != key(plain) and plain["kind"] != "fuel":
+                failing.append((op, a, b, "Int descendants (%s)" % what,
+                                "%s vs plain %s" % ({k: r.get(k) for k in ("kind", "errk", "repr", "panic")}, {k: plain.get(k) for k in ("kind", "errk", "repr")}), None))
+                break
+    hist["typed-operands"] = len(tmeta)
     # decide
     if failing:
         seenk = set()
